@@ -245,6 +245,10 @@ class Retarget(Machine):
             if keep.any() and not keep.all():
                 t = np.where(keep[:, None], e.tgt, t)
                 self.ctx.probe("only_some_target_points_moved")
+        if op["seed"] % 7 == 3 and e.tgt.shape == t.shape and e.tgt.dtype.kind == "f":
+            # a refinement step: every landmark moves, by about a millionth of the shape's extent
+            t = e.tgt + 1e-6 * float(np.abs(e.tgt).max() + 1.0) * (rs(op["seed"]).rand(*e.tgt.shape) - 0.5)
+            self.ctx.probe("target_moved_by_a_millionth")
         tobj = self._pass(t, graph=bool(op["seed"] % 5 == 0))
         try:
             e.al.set_target(tobj)
